@@ -147,6 +147,9 @@ AssignPost == [][LET e == hist'[Len(hist')] IN
                  /\ (e.op = "assign_scalar" => \A i \in 1..Len(members') : ReadAttrS(members', val', e.a)[i] = e.v)
                  /\ (e.op = "assign_seq" /\ outcome' = "ok" => ReadAttrS(members', val', e.a) = e.vs)
                  /\ (e.op \in {"assign_scalar", "assign_seq"} => \A b \in Attrs \ {e.a} : val'[b] = val[b])]_vars
+\* observers outside the group are never touched by a group-level call
+OutsidersUntouched == [][(hist'[Len(hist')].op \notin {"set_member"} =>
+                          \A o \in Obs \ Rng(members) : \A a \in Attrs : val'[a][o] = val[a][o])]_vars
 ObserveOnce == [][(hist'[Len(hist')].op = "observe" =>
                    \A o \in Obs : nobs'[o] = nobs[o] + (IF o \in Rng(members) THEN 1 ELSE 0))]_vars
 
@@ -154,5 +157,6 @@ View == <<members, val, name, parent, nobs, outcome>>
 Emit == PrintT(ToJson([h |-> hist', members |-> members', a |-> ReadAttr("a")', b |-> ReadAttr("b")',
                        names |-> ReadNames', byname |-> ByName', dup |-> DupNames',
                        nobs |-> [i \in 1..Len(members') |-> nobs'[members'[i]]],
-                       outsiders |-> {<<o, nobs'[o]>> : o \in Obs \ Rng(members')}, outcome |-> outcome']))
+                       outsiders |-> {<<o, nobs'[o]>> : o \in Obs \ Rng(members')},
+                       outvals |-> {<<o, val'["a"][o], val'["b"][o]>> : o \in Obs \ Rng(members')}, outcome |-> outcome']))
 =============================================================================
